@@ -8,7 +8,9 @@ PROPERTIES = ["C08"]
 MANIFEST = {
     "C08": {
         "technique": "Lean 4 proof: representation invariant + refinement of a checked-memory model of Buffer.hpp to a byte-queue "
-                     "specification, lifted by induction over arbitrary operation lists; differential correspondence of the model "
+                     "specification, lifted by induction over arbitrary operation lists; tie by translation: tools/gen_buffer.py regenerates the "
+                     "method bodies of the current Buffer.hpp as Lean functions and PropsTr proves them equal to the model's methods; "
+                     "differential correspondence of the model "
                      "against the real Buffer.hpp (ASan/UBSan harness) + independent Python byte-queue oracle on every run",
         "text": "Proved in Lean (lean/Nstd/Buffer/Props.lean) for ALL operation lists over any number of Buffer variables and any "
                 "attachable regions, no bound on sizes/offsets/history length: no_fault (well-formed histories never access memory "
@@ -47,6 +49,18 @@ MANIFEST = {
                 "scripted, prints the white-box state of each _sendBuffer; the same lines run on the client model over the Buffer model, and a "
                 "stream-conservation oracle (buffer = bytes written minus bytes send accepted; send is offered the whole backlog; postponed; "
                 "onWrite iff drained; closed iff send failed or accepted nothing) is evaluated on the implementation's output.  "
+                "Round 7: client_backlog_faithful (PropsClient) - the whole-history composition: for any number of clients and EVERY list of "
+                "client events (ClientImpl::write / write-readiness event, any answer of send, any capacity wish, any interleaving) the client "
+                "model clientStep - the function the correspondence run executes for cw/cr lines - never faults and every _sendBuffer holds exactly "
+                "the pending bytes of the stream-conservation view (written minus accepted by send; nothing once closed), size, terminator, "
+                "capacity <= max(high-water mark of its pending bytes, its wishes); stream_conservation (the specification is conservation of bytes).  "
+                "TIE BY TRANSLATION (PropsTr, PropsTr2): tools/gen_buffer.py (typed parser of the C++ subset; refuses anything else) regenerates on every run "
+                "lean/Nstd/Generated/BufferBody.lean from the current Buffer.hpp - the bodies of both constructors, destructor, attach, operator=, "
+                "assign, prepend(data,size), resize, both appends, removeFront, removeBack, reserve, clear, swap, free, statement by statement over the "
+                "checked-memory machine CMem.lean (pointer = (block, offset)) - and tr_resize, tr_removeFront, tr_removeBack, tr_clear, tr_free, tr_attach, "
+                "tr_reserve, tr_prepend, tr_assign, tr_assignBuf, tr_swap, tr_appendBuf, tr_append prove: generated method = hand-written model method "
+                "(capacity wish 0) on every state that satisfies the representation invariant with a live block, for arguments outside the object - same "
+                "faults, pointers, _capacity, bytes, ledger.  A change of one of these bodies changes the generated definition and the proof fails.  "
                 "The model is tied to the current Buffer.hpp on every run: identical op lines are executed by a harness built from the "
                 "current sources (fresh memory poisoned, attached ranges and data arguments handed out as exactly sized heap blocks so that "
                 "ASan sees any access outside them, attached blocks compared with their source after every op) and by the compiled model; "
@@ -54,16 +68,20 @@ MANIFEST = {
                 "lines compare _capacity, head-room and where the pointers point (the branch-selecting state), `heap` lines the number of "
                 "live allocations, and an independent Python reference (byte queue; live blocks = owning variables) is evaluated on the "
                 "implementation's output.  Evidence lists how often every branch of Buffer.hpp was taken.",
-        "note": "Trusted: Lean kernel + propext/Classical.choice/Quot.sound; the hand translation of Buffer.hpp into Model.lean (validated "
-                "by the correspondence run, not proved).  Modelled rather than verified: memory is one checked block per Buffer object held by "
+        "note": "Trusted: Lean kernel + propext/Classical.choice/Quot.sound; tools/gen_buffer.py and the semantics of its target machine CMem.lean "
+                "(assumption: comparing pointers into different blocks yields the order of the blocks - distinct blocks do not touch); the hand translation of "
+                "Buffer.hpp into Model.lean is proved equal to the translated current source for resize, removeFront/Back, clear, free, attach, reserve, "
+                "prepend(data,size), assign, operator=, swap and both appends with arguments outside the object (tr_* theorems, capacity wish 0), and is still "
+                "hand-translated and only tied by the correspondence run for: the alias variants (assignSelf/prependSelf/appendSelf, ...Sub, Raw.lean's ...Ptr - the "
+                "generated bodies cover them, the equalities are not proved), prepend(const Buffer&) (forwarder, not translated), constructors/destructor "
+                "(translated, equality not stated), operator==/!=, size/capacity/isEmpty.  Modelled rather than verified: memory is one checked block per Buffer object held by "
                 "value plus the allocation ledger (ids are never reused; the content of a deleted block is simply unreachable).  A (pointer, "
                 "size) argument is either memory outside the object's block (modelled by value) or a sub-range of the object's own exposed "
                 "bytes (ops prependsub/appendsub/assignsub - proved; Buffer arguments may be the object itself - proved); or (ops prependraw/appendraw/assignraw, "
                 "PropsRaw) any sub-range of the object's own allocation; a range that is not inside one block (partly outside the "
                 "allocation) is a fault of the model.  The client model (Client.lean) is a hand translation of Server.cpp:333-362,441-477 tied by the backlog-client "
                 "stream (send and epoll_wait are scripted, the kernel is not involved; every line of the two sites is executed, docs/implcov/C08.txt); "
-                "that every client history expands to an Admissible backlog history is proved per operation (client_model_follows_protocol), the "
-                "composition with backlog_faithful_multi over whole client histories is not stated as one theorem.  "
+                "whole client histories are proved (client_backlog_faithful).  "
                 "Attached memory is not changed by the "
                 "caller while attached.  Allocation never fails; usize arithmetic does not wrap (Nat).  size(), capacity(), isEmpty() are modelled (observers_agree) and tied by the `state` "
                 "lines; operator const byte*/byte* is the pointer every observation reads through (tie only).  No theorem is partial.",
@@ -978,6 +996,7 @@ def check(ctx):
         "memory model of the Lean model: each Buffer holds its allocation / its attached range as a separate checked block; every access is validated against its extent and, for owned blocks, against the allocation ledger (block ids + live set; new/delete[] in C++ order)",
         "data arguments given by (pointer, size) are outside the buffer's block, a sub-range of its own exposed bytes, or any sub-range of its own allocation / attached range (all proved); a range that straddles the end of the allocation is a fault of the model",
         "allocation never fails",
+        "translated bodies (tools/gen_buffer.py, CMem.lean): a pointer is (block, offset); comparing pointers into different blocks yields the order of the blocks (distinct blocks do not touch); usize arithmetic does not wrap",
     ]
     proof_ok = C.proof_stage(ctx, PROPS, [DRIVER], gen=gen, leanchecker=(ctx.tier == "thorough"))
     harness = C.build_harness(ctx, "buffer", ["buffer.cpp", C.REPO / "src/Memory.cpp"])
